@@ -176,8 +176,9 @@ pub fn factor(n: Uint, alg: Algo, prefs: &Preferences) -> Result<Vec<Uint>, Fact
     if n.is_zero() {
         return Ok(vec![n]);
     }
-    if n.bits() > 64 * arith_montgomery::MINT_WORDS as u32 {
-        // Modular arithmetic is limited to 512-bit moduli.
+    if n.bits() >= 64 * arith_montgomery::MINT_WORDS as u32 {
+        // Modular arithmetic needs moduli below 2^511: residues are stored
+        // in 512 bits and the sum of two residues must fit.
         return Err(FactoringFailure);
     }
     let mut factors = vec![];
